@@ -43,6 +43,8 @@ CellTags(e, o) == UNION {o.mem[i].p : i \in MisCells(e, o)}
 ErrCodes(outs) == UNION {o.rc : o \in {x \in outs : x.cls = "err"}}
 
 RcBlame(e, outs) ==
+  IF e.fn \in StrQueryFns /\ e.hn = 0 /\ \A o \in outs : o.cls = "ok" THEN {"C10"}     \* a query answered with the wrong plain status (found / not found)
+  ELSE
   LET okPossible == \E o \in outs : o.cls = "ok"
       exp == ErrCodes(outs)
   IN {"C05"} \cup (IF ~okPossible /\ ESOVRLP \in exp THEN {"C07"} ELSE {})
